@@ -28,12 +28,12 @@ var c15GovChain = vaa.ChainID(1)
 var c15GovAddr = vaa.Address{31: 4}
 
 type hexArg struct {
-	Len  int    `json:"len"`  // bytes
+	Len  int    `json:"len"` // bytes
 	Seed uint64 `json:"seed"`
-	Odd  bool   `json:"odd,omitempty"`  // odd number of hex digits
-	Bad  bool   `json:"bad,omitempty"`  // a non-hex character
-	Up   bool   `json:"up,omitempty"`   // upper case
-	Pfx  bool   `json:"pfx,omitempty"`  // 0x prefix
+	Odd  bool   `json:"odd,omitempty"` // odd number of hex digits
+	Bad  bool   `json:"bad,omitempty"` // a non-hex character
+	Up   bool   `json:"up,omitempty"`  // upper case
+	Pfx  bool   `json:"pfx,omitempty"` // 0x prefix
 }
 
 func (h hexArg) String() string {
@@ -66,10 +66,10 @@ type c15Case struct {
 	Chain   uint32   `json:"chain"`
 	CL      uint32   `json:"cl"`
 	Seqs    []uint64 `json:"seqs"`
-	NSeqBig int      `json:"nseqbig"` // if > 0: that many sequences (derived), ignoring Seqs
-	Guards  []int    `json:"guards"`  // pool key index; negative = malformed pubkey string
+	NSeqBig int      `json:"nseqbig"`           // if > 0: that many sequences (derived), ignoring Seqs
+	Guards  []int    `json:"guards"`            // pool key index; negative = malformed pubkey string
 	PkStyle int      `json:"pkstyle,omitempty"` // how the guardian keys are spelled (0 = all "0x" + checksummed hex)
-	Upg     int      `json:"upg"`     // contract-upgrade payload form: 0 raw hex, 1 code only, 2 code+state
+	Upg     int      `json:"upg"`               // contract-upgrade payload form: 0 raw hex, 1 code only, 2 code+state
 	ViaRPC  bool     `json:"viarpc"`
 }
 
